@@ -224,9 +224,18 @@ def check_formula_verified(run, ix):
     if outside:
         run.fail(F('Q-R11', 'identify', outside[0], 'a formula is stored without passing through addsolution'))
     param = add.args.args[0].arg
+    derived = {param}
+    changed = True
+    while changed:
+        changed = False
+        for st in ast.walk(add):
+            if isinstance(st, ast.Assign) and isinstance(st.targets[0], ast.Name) and st.targets[0].id not in derived \
+                    and any(isinstance(n, ast.Name) and n.id in derived for n in ast.walk(st.value)):
+                derived.add(st.targets[0].id)
+                changed = True
     evals = [st for st in ast.walk(add) if isinstance(st, ast.Assign) and isinstance(st.value, ast.Call) and
              norm(st.value.func) == 'eval' and
-             any(isinstance(n, ast.Name) and n.id == param for n in ast.walk(st.value.args[0]))]
+             any(isinstance(n, ast.Name) and n.id in derived for n in ast.walk(st.value.args[0]))]
     test = None
     for x in ast.walk(add):
         if isinstance(x, ast.If) and evals:
@@ -266,6 +275,23 @@ def check_formula_verified(run, ix):
         run.ok('Q-R11', 'a formula whose evaluation divides by zero is rejected')
     else:
         run.fail(F('Q-R11', 'identify', evals[0], 'a formula whose evaluation fails (1/log(1)) is not rejected'))
+    # no handler lets an unevaluated formula through
+    accepting = []
+    for t in tries:
+        for h in t.handlers:
+            rets = [b for b in h.body if isinstance(b, ast.Return)]
+            falsy = rets and (rets[0].value is None or (isinstance(rets[0].value, ast.Constant) and not rets[0].value.value))
+            if not falsy and not any(isinstance(b, ast.Raise) for b in h.body):
+                accepting.append(h)
+    if accepting:
+        run.fail(F('Q-R11', 'identify', 'except %s' % (norm(accepting[0].type) if accepting[0].type is not None else ''),
+                   'a formula whose evaluation raises %s is accepted unchecked: a constant whose name is not an '
+                   'expression (identify(mpf("1e-6"), {"Li2(1/2)": polylog(2, 0.5)})) switches the verification off '
+                   'and log(((2-sqrt(0))/2))/Li2(1/2), which is 0, is returned'
+                   % (norm(accepting[0].type) if accepting[0].type is not None else 'anything'),
+                   line=accepting[0].lineno))
+    else:
+        run.ok('Q-R11', 'every exception of the evaluation rejects the formula')
     # integer literals become mpf (5**(1/3) is a float power otherwise: wrong verdicts above 53 bits)
     if '_int_literals.sub' in norm(evals[0].value.args[0], 200) or 'mpf' in norm(evals[0].value.args[0], 200):
         run.ok('Q-R11', 'integer literals are evaluated as mpf')
@@ -801,7 +827,7 @@ def run(run, ix, tier):
     check_norm_exit(run, ix)
     check_self_delegation(run, ix)
     run.rule('Q-R10', floor=2)
-    run.rule('Q-R11', floor=5)
+    run.rule('Q-R11', floor=6)
     run.rule('Q-R12', floor=2)
     run.rule('Q-R13', floor=3)
     check_scaling(run, ix)
